@@ -18,7 +18,8 @@ def sec10():
            "recorded in `KNOWN_FINDINGS.txt`. The checks print one `KNOWN-FINDING:` line per listed finding and still exit 1 for any\n"
            "violation the predicates do not cover; `fixed:` entries suppress nothing. `property=GROWTH` marks defects outside the\n"
            "twenty listed properties, found by the growth suite (section 12).\n",
-           "### 10.1 Repaired (%d `fix:` commits in /repo)\n" % len(fixed),
+           "### 10.1 Repaired (%d `fix:` commits in /repo; a commit that repaired two properties is listed twice)\n"
+           % len({l.split()[2] for l in fixed}),
            "| property | commit | what failed |", "|---|---|---|"]
     for l in fixed:
         m = re.match(r"fixed: property=(\S+) (\S+) (.*)", l)
